@@ -142,6 +142,10 @@ def _lower_walrus(stmts: List[ast.stmt]) -> bool:
 _FLIP = {ast.Lt: ast.Gt, ast.Gt: ast.Lt, ast.LtE: ast.GtE, ast.GtE: ast.LtE, ast.Eq: ast.Eq, ast.NotEq: ast.NotEq}
 
 
+_STRING_CONSTS = {"ascii_uppercase": "ABCDEFGHIJKLMNOPQRSTUVWXYZ", "ascii_lowercase": "abcdefghijklmnopqrstuvwxyz", "digits": "0123456789", "hexdigits": "0123456789abcdefABCDEF",
+                  "ascii_letters": "abcdefghijklmnopqrstuvwxyzABCDEFGHIJKLMNOPQRSTUVWXYZ", "octdigits": "01234567"}
+
+
 class _ExprCanon(ast.NodeTransformer):
     """Spellings of one expression that differ only in form:
     * `isinstance(x, A) or isinstance(x, B)` is `isinstance(x, (A, B))`, `not isinstance(x, A) and not isinstance(x, B)` is
@@ -149,8 +153,25 @@ class _ExprCanon(ast.NodeTransformer):
     * `c < x` with a literal on the left is `x > c` (likewise `<=`, `==`, `!=`);
     * `range(0, n)` is `range(n)`."""
 
-    def __init__(self):
+    def __init__(self, imports=None):
         self.changed = False
+        self.fresh = 0
+        self.imports = dict(imports or {})
+        self.bound = set()
+
+    def visit_Attribute(self, n):
+        self.generic_visit(n)
+        # constants of the standard library's string module are their text
+        if isinstance(n.ctx, ast.Load) and isinstance(n.value, ast.Name) and self.imports.get(n.value.id) == "string" and n.attr in _STRING_CONSTS:
+            self.changed = True
+            return ast.copy_location(ast.Constant(value=_STRING_CONSTS[n.attr]), n)
+        return n
+
+    def visit_Name(self, n):
+        if isinstance(n.ctx, ast.Load) and self.imports.get(n.id, "").startswith("string.") and self.imports[n.id].split(".", 1)[1] in _STRING_CONSTS and n.id not in self.bound:
+            self.changed = True
+            return ast.copy_location(ast.Constant(value=_STRING_CONSTS[self.imports[n.id].split(".", 1)[1]]), n)
+        return n
 
     def visit_Lambda(self, n):
         return n
@@ -202,12 +223,110 @@ class _ExprCanon(ast.NodeTransformer):
             return ast.copy_location(ast.Compare(left=n.comparators[0], ops=[_FLIP[type(n.ops[0])]()], comparators=[n.left]), n)
         return n
 
+    def _comp(self, n):
+        self.generic_visit(n)
+        # [.. X[i] .. for i in range(len(X))]  is  [.. x .. for i, x in enumerate(X)]   (X a name / attribute chain, not rebound inside)
+        for gi, g in enumerate(n.generators):
+            it = g.iter
+            if not (isinstance(g.target, ast.Name) and isinstance(it, ast.Call) and isinstance(it.func, ast.Name) and it.func.id == "range" and len(it.args) == 1 and not it.keywords):
+                continue
+            a = it.args[0]
+            if not (isinstance(a, ast.Call) and isinstance(a.func, ast.Name) and a.func.id == "len" and len(a.args) == 1 and not a.keywords and self._pure(a.args[0])
+                    and not isinstance(a.args[0], ast.Subscript)):
+                continue
+            X, i = a.args[0], g.target.id
+            scope = list(g.ifs) + [x for g2 in n.generators[gi + 1:] for x in [g2.iter] + list(g2.ifs)] + ([n.key, n.value] if isinstance(n, ast.DictComp) else [n.elt])
+            hits = [x for e in scope for x in ast.walk(e) if isinstance(x, ast.Subscript) and isinstance(x.ctx, ast.Load) and isinstance(x.slice, ast.Name) and x.slice.id == i
+                    and ast.dump(x.value) == ast.dump(X)]
+            if not hits:
+                continue
+            self.fresh += 1
+            en = f"_en{self.fresh}"
+            ids = {id(h) for h in hits}
+
+            class R(ast.NodeTransformer):
+                def visit_Subscript(self, x):
+                    if id(x) in ids:
+                        return ast.copy_location(ast.Name(id=en, ctx=ast.Load()), x)
+                    return self.generic_visit(x)
+
+            g.ifs = [R().visit(x) for x in g.ifs]
+            for g2 in n.generators[gi + 1:]:
+                g2.iter = R().visit(g2.iter)
+                g2.ifs = [R().visit(x) for x in g2.ifs]
+            if isinstance(n, ast.DictComp):
+                n.key, n.value = R().visit(n.key), R().visit(n.value)
+            else:
+                n.elt = R().visit(n.elt)
+            g.target = ast.copy_location(ast.Tuple(elts=[ast.Name(id=i, ctx=ast.Store()), ast.Name(id=en, ctx=ast.Store())], ctx=ast.Store()), g.target)
+            g.iter = ast.copy_location(ast.Call(func=ast.Name(id="enumerate", ctx=ast.Load()), args=[X], keywords=[]), it)
+            self.changed = True
+        return n
+
+    visit_ListComp = visit_SetComp = visit_DictComp = visit_GeneratorExp = _comp
+
+    def visit_IfExp(self, n):
+        self.generic_visit(n)
+        if isinstance(n.test, ast.UnaryOp) and isinstance(n.test.op, ast.Not):
+            # `a if not c else b` is `b if c else a`
+            self.changed = True
+            return ast.copy_location(ast.IfExp(test=n.test.operand, body=n.orelse, orelse=n.body), n)
+        return n
+
+    def visit_Subscript(self, n):
+        self.generic_visit(n)
+
+        def len_minus(e, base):
+            """k when e is `len(<base>) - k` (k a positive int literal)"""
+            if isinstance(e, ast.BinOp) and isinstance(e.op, ast.Sub) and isinstance(e.right, ast.Constant) and isinstance(e.right.value, int) and not isinstance(e.right.value, bool) and e.right.value >= 1 \
+                    and isinstance(e.left, ast.Call) and isinstance(e.left.func, ast.Name) and e.left.func.id == "len" and len(e.left.args) == 1 and not e.left.keywords \
+                    and self._pure(base) and ast.dump(e.left.args[0]) == ast.dump(base):
+                return e.right.value
+            return None
+
+        sl = n.slice
+        if isinstance(sl, ast.Slice):
+            # xs[0:k] is xs[:k];  xs[: len(xs) - k] is xs[:-k]
+            if isinstance(sl.lower, ast.Constant) and sl.lower.value == 0 and not isinstance(sl.lower.value, bool) and sl.step is None:
+                sl.lower = None
+                self.changed = True
+            k = len_minus(sl.upper, n.value) if sl.upper is not None else None
+            if k is not None and sl.step is None:
+                sl.upper = ast.copy_location(ast.UnaryOp(op=ast.USub(), operand=ast.Constant(value=k)), sl.upper)
+                self.changed = True
+        elif isinstance(n.ctx, ast.Load):
+            # xs[len(xs) - 1] is xs[-1] (both raise IndexError for an empty xs)
+            k = len_minus(sl, n.value)
+            if k == 1:
+                n.slice = ast.copy_location(ast.UnaryOp(op=ast.USub(), operand=ast.Constant(value=1)), sl)
+                self.changed = True
+        return n
+
     def visit_Call(self, n):
         self.generic_visit(n)
         if isinstance(n.func, ast.Name) and n.func.id == "range" and len(n.args) == 2 and not n.keywords and isinstance(n.args[0], ast.Constant) and n.args[0].value == 0 \
                 and not isinstance(n.args[0].value, bool):
             self.changed = True
             n.args = [n.args[1]]
+        if isinstance(n.func, ast.Name) and n.func.id == "dict" and len(n.args) == 1 and not n.keywords:
+            a = n.args[0]
+            if isinstance(a, (ast.ListComp, ast.GeneratorExp)) and isinstance(a.elt, ast.Tuple) and len(a.elt.elts) == 2 and not any(isinstance(e, ast.Starred) for e in a.elt.elts):
+                # dict([(k, v) for ..]) is {k: v for ..}
+                self.changed = True
+                return ast.copy_location(ast.DictComp(key=a.elt.elts[0], value=a.elt.elts[1], generators=a.generators), n)
+            if isinstance(a, ast.Call) and isinstance(a.func, ast.Name) and a.func.id == "zip" and len(a.args) == 2 and not a.keywords and not any(isinstance(e, ast.Starred) for e in a.args):
+                # dict(zip(ks, vs)) is {k: v for k, v in zip(ks, vs)}
+                self.changed = True
+                self.fresh += 1
+                k_, v_ = f"_zk{self.fresh}", f"_zv{self.fresh}"
+                gen = ast.comprehension(target=ast.Tuple(elts=[ast.Name(id=k_, ctx=ast.Store()), ast.Name(id=v_, ctx=ast.Store())], ctx=ast.Store()), iter=a, ifs=[], is_async=0)
+                return ast.copy_location(ast.DictComp(key=ast.Name(id=k_, ctx=ast.Load()), value=ast.Name(id=v_, ctx=ast.Load()), generators=[gen]), n)
+        if isinstance(n.func, ast.Attribute) and n.func.attr == "group" and isinstance(n.func.value, ast.Name) and len(n.args) >= 2 and not n.keywords \
+                and all(isinstance(a, ast.Constant) and isinstance(a.value, int) and not isinstance(a.value, bool) for a in n.args):
+            # m.group(1, 2) of a regular-expression match is (m.group(1), m.group(2))
+            self.changed = True
+            return ast.copy_location(ast.Tuple(elts=[ast.copy_location(ast.Call(func=ast.Attribute(value=ast.Name(id=n.func.value.id, ctx=ast.Load()), attr="group", ctx=ast.Load()), args=[a], keywords=[]), n)
+                                                     for a in n.args], ctx=ast.Load()), n)
         return n
 
 
@@ -273,14 +392,335 @@ def _lower_selfassign(fn: ast.AST) -> bool:
     return changed
 
 
+def _blocks(fn: ast.AST):
+    """every statement list of a function body (not of nested functions / classes)"""
+    out = []
+
+    def rec(stmts):
+        out.append(stmts)
+        for st in stmts:
+            if isinstance(st, (ast.FunctionDef, ast.AsyncFunctionDef, ast.ClassDef)):
+                continue
+            for fld in ("body", "orelse", "finalbody"):
+                sub = getattr(st, fld, None)
+                if isinstance(sub, list) and sub and isinstance(sub[0], ast.stmt):
+                    rec(sub)
+            for h in getattr(st, "handlers", []) or []:
+                rec(h.body)
+            for c in getattr(st, "cases", []) or []:
+                rec(c.body)
+
+    rec(fn.body)
+    return out
+
+
+def _index_reads(stmts, start: int, t: str, n_loads: int) -> List[str]:
+    """names a, b, .. when stmts[start:] begins with `a = t[0]; b = t[1]; ..` (at least two) and these are all n_loads reads of t"""
+    names: List[str] = []
+    for k, b in enumerate(stmts[start:]):
+        if isinstance(b, ast.Assign) and len(b.targets) == 1 and isinstance(b.targets[0], ast.Name) and b.targets[0].id != t and b.targets[0].id not in names \
+                and isinstance(b.value, ast.Subscript) and isinstance(b.value.value, ast.Name) and b.value.value.id == t and isinstance(b.value.slice, ast.Constant) \
+                and b.value.slice.value == k and not isinstance(b.value.slice.value, bool):
+            names.append(b.targets[0].id)
+        else:
+            break
+    return names if len(names) >= 2 and len(names) == n_loads else []
+
+
+def _counter_init(st):
+    if isinstance(st, ast.Assign) and len(st.targets) == 1 and isinstance(st.targets[0], ast.Name) and isinstance(st.value, ast.Constant) and isinstance(st.value.value, int) \
+            and not isinstance(st.value.value, bool):
+        return st.targets[0].id, st.value.value
+    return None
+
+
+def _is_incr(b, k: str) -> bool:
+    return isinstance(b, ast.AugAssign) and isinstance(b.op, ast.Add) and isinstance(b.target, ast.Name) and b.target.id == k and isinstance(b.value, ast.Constant) and b.value.value == 1 \
+        and not isinstance(b.value.value, bool)
+
+
+def _loop_level(body, kinds) -> bool:
+    """a statement of one of the kinds that belongs to this loop (not to a loop nested in it)"""
+    for b in body:
+        if isinstance(b, kinds):
+            return True
+        if isinstance(b, (ast.For, ast.While, ast.FunctionDef, ast.AsyncFunctionDef, ast.ClassDef)):
+            # break / continue inside belong to the inner loop; its else clause belongs to this one
+            if isinstance(b, (ast.For, ast.While)) and _loop_level(b.orelse, kinds):
+                return True
+            continue
+        for fld in ("body", "orelse", "finalbody"):
+            sub = getattr(b, fld, None)
+            if isinstance(sub, list) and sub and isinstance(sub[0], ast.stmt) and _loop_level(sub, kinds):
+                return True
+        for h in getattr(b, "handlers", []) or []:
+            if _loop_level(h.body, kinds):
+                return True
+    return False
+
+
+def _counter_loop(init, loop, params, stores, loads):
+    k, c0 = _counter_init(init)
+    if k in params or len(stores.get(k, [])) != 2 or not loop.body:
+        return None
+    inside = {id(n) for n in ast.walk(loop)}
+    if any(id(n) not in inside for n in loads.get(k, [])):
+        return None  # the counter is read after the loop
+    if isinstance(loop, ast.For):
+        if any(isinstance(n, ast.Name) and n.id == k for n in ast.walk(loop.iter)) or any(isinstance(n, ast.Name) and n.id == k for n in ast.walk(loop.target)):
+            return None
+        if _is_incr(loop.body[0], k) and len(loop.body) > 1:
+            start, body = c0 + 1, loop.body[1:]
+        elif _is_incr(loop.body[-1], k) and len(loop.body) > 1 and not _loop_level(loop.body, (ast.Continue,)):
+            start, body = c0, loop.body[:-1]
+        else:
+            return None
+        call = ast.Call(func=ast.Name(id="enumerate", ctx=ast.Load()), args=[loop.iter] + ([ast.Constant(value=start)] if start != 0 else []), keywords=[])
+        new = ast.For(target=ast.Tuple(elts=[ast.Name(id=k, ctx=ast.Store()), loop.target], ctx=ast.Store()), iter=call, body=body, orelse=[], type_comment=None)
+        return ast.fix_missing_locations(ast.copy_location(new, loop))
+    t = loop.test
+    if c0 != 0 or not (isinstance(t, ast.Compare) and len(t.ops) == 1 and isinstance(t.ops[0], ast.Lt) and isinstance(t.left, ast.Name) and t.left.id == k):
+        return None
+    bound = t.comparators[0]
+    # the bound is built from names / attributes / len() only and nothing it names is rebound or (visibly) mutated in the body
+    if not all(isinstance(n, (ast.Name, ast.Attribute, ast.Load, ast.Call)) for n in ast.walk(bound)):
+        return None
+    if any(isinstance(n, ast.Call) and not (isinstance(n.func, ast.Name) and n.func.id == "len" and len(n.args) == 1 and not n.keywords) for n in ast.walk(bound)):
+        return None
+    bnames = {n.id for n in ast.walk(bound) if isinstance(n, ast.Name)} - {"len"}
+    if k in bnames:
+        return None
+    for b in loop.body:
+        for n in ast.walk(b):
+            if isinstance(n, ast.Name) and isinstance(n.ctx, (ast.Store, ast.Del)) and n.id in bnames:
+                return None
+            if isinstance(n, ast.Call) and isinstance(n.func, ast.Attribute) and isinstance(n.func.value, ast.Name) and n.func.value.id in bnames \
+                    and n.func.attr in ("append", "extend", "pop", "remove", "insert", "clear"):
+                return None
+            if isinstance(n, (ast.Subscript, ast.Attribute)) and isinstance(n.ctx, (ast.Store, ast.Del)) and isinstance(n.value, ast.Name) and n.value.id in bnames and isinstance(n, ast.Subscript) \
+                    and isinstance(n.slice, ast.Slice):
+                return None
+    if not (_is_incr(loop.body[-1], k) and len(loop.body) > 1) or _loop_level(loop.body, (ast.Continue,)):
+        return None
+    call = ast.Call(func=ast.Name(id="range", ctx=ast.Load()), args=[bound], keywords=[])
+    new = ast.For(target=ast.Name(id=k, ctx=ast.Store()), iter=call, body=loop.body[:-1], orelse=[], type_comment=None)
+    return ast.fix_missing_locations(ast.copy_location(new, loop))
+
+
+def _lower_enumerate_index(fn: ast.AST) -> bool:
+    """`for i, (a, b) in enumerate(zip(A, B)): v = Z[i]; ..` with i used for nothing else and `assert len(Z) == len(A)` (or the
+    mirrored form) standing before the loop in the function body, neither sequence rebound in between or in the loop
+    ->  `for a, b, v in zip(A, B, Z): ..`  (the counter indexes a sequence of the same length: the i-th element of Z)"""
+    loads, stores = {}, {}
+    for n in ast.walk(fn):
+        if isinstance(n, ast.Name):
+            (loads if isinstance(n.ctx, ast.Load) else stores).setdefault(n.id, []).append(n)
+    changed = False
+    top = fn.body
+
+    def len_pair(st):
+        if isinstance(st, ast.Assert) and isinstance(st.test, ast.Compare) and len(st.test.ops) == 1 and isinstance(st.test.ops[0], ast.Eq):
+            sides = [st.test.left, st.test.comparators[0]]
+            if all(isinstance(x, ast.Call) and isinstance(x.func, ast.Name) and x.func.id == "len" and len(x.args) == 1 and isinstance(x.args[0], ast.Name) and not x.keywords for x in sides):
+                return {sides[0].args[0].id, sides[1].args[0].id}
+        return None
+
+    for li, lp in enumerate(top):
+        if not (isinstance(lp, ast.For) and not lp.orelse and isinstance(lp.iter, ast.Call) and isinstance(lp.iter.func, ast.Name) and lp.iter.func.id == "enumerate" and len(lp.iter.args) == 1
+                and not lp.iter.keywords and isinstance(lp.target, ast.Tuple) and len(lp.target.elts) == 2 and isinstance(lp.target.elts[0], ast.Name)):
+            continue
+        i = lp.target.elts[0].id
+        inner_t, X = lp.target.elts[1], lp.iter.args[0]
+        if isinstance(X, ast.Call) and isinstance(X.func, ast.Name) and X.func.id == "zip" and X.args and not X.keywords and all(isinstance(a, ast.Name) for a in X.args) \
+                and isinstance(inner_t, ast.Tuple) and len(inner_t.elts) == len(X.args):
+            seqs, telts = [a.id for a in X.args], list(inner_t.elts)
+        elif isinstance(X, ast.Name):
+            seqs, telts = [X.id], [inner_t]
+        else:
+            continue
+        extra = []
+        for b in lp.body:
+            if isinstance(b, ast.Assign) and len(b.targets) == 1 and isinstance(b.targets[0], ast.Name) and isinstance(b.value, ast.Subscript) and isinstance(b.value.value, ast.Name) \
+                    and isinstance(b.value.slice, ast.Name) and b.value.slice.id == i and b.value.value.id not in seqs and b.value.value.id not in [z for _v, z in extra]:
+                extra.append((b.targets[0].id, b.value.value.id))
+            else:
+                break
+        if not extra or len(extra) >= len(lp.body) or len(loads.get(i, [])) != len(extra) or len(stores.get(i, [])) != 1:
+            continue
+        ok = True
+        for _v, z in extra:
+            guard = [k for k in range(li) if (lp_ := len_pair(top[k])) is not None and z in lp_ and (lp_ - {z}) and next(iter(lp_ - {z})) in seqs]
+            if not guard:
+                ok = False
+                break
+            a0 = next(iter(len_pair(top[guard[-1]]) - {z}))
+            between = top[guard[-1] + 1:li] + [lp]
+            if any(isinstance(x, ast.Name) and isinstance(x.ctx, (ast.Store, ast.Del)) and x.id in (z, a0) for st in between for x in ast.walk(st)):
+                ok = False
+                break
+        if not ok:
+            continue
+        lp.target = ast.copy_location(ast.Tuple(elts=telts + [ast.Name(id=v, ctx=ast.Store()) for v, _z in extra], ctx=ast.Store()), lp.target)
+        lp.iter = ast.copy_location(ast.Call(func=ast.Name(id="zip", ctx=ast.Load()), args=[ast.Name(id=q, ctx=ast.Load()) for q in seqs] + [ast.Name(id=z, ctx=ast.Load()) for _v, z in extra],
+                                             keywords=[]), lp.iter)
+        del lp.body[:len(extra)]
+        ast.fix_missing_locations(lp)
+        changed = True
+    return changed
+
+
+def _lower_statements(fn: ast.AST) -> List[str]:
+    """Statement forms with one meaning written one way:
+    `del xs[k]` (k an int literal, xs a name) is `xs.pop(k)`;
+    `if not c: A else: B` / `if x not in s: A else: B` (a plain else, no elif chain) is `if c: B else: A`;
+    `t = <call>; a, b, c = t` with t used nowhere else is `a, b, c = <call>`;
+    `L = []; .. L.append(e) ..; x = "".join(L)` with L used for nothing else is `L = ""; .. L += e ..; x = L`."""
+    notes = []
+    loads, stores = {}, {}
+    for n in ast.walk(fn):
+        if isinstance(n, ast.Name):
+            (loads if isinstance(n.ctx, ast.Load) else stores).setdefault(n.id, []).append(n)
+    params = {a.arg for a in fn.args.posonlyargs + fn.args.args + fn.args.kwonlyargs} | ({fn.args.vararg.arg} if fn.args.vararg else set()) | ({fn.args.kwarg.arg} if fn.args.kwarg else set())
+    nested = any(isinstance(n, (ast.FunctionDef, ast.AsyncFunctionDef, ast.Lambda, ast.ClassDef)) and n is not fn for n in ast.walk(fn))
+    for stmts in _blocks(fn):
+        i = 0
+        while i < len(stmts):
+            st = stmts[i]
+            if isinstance(st, ast.AnnAssign) and st.value is not None and isinstance(st.target, ast.Attribute):
+                # self.x: T = v  is  self.x = v
+                stmts[i] = st = ast.copy_location(ast.Assign(targets=[st.target], value=st.value), st)
+                notes.append("annotated attribute assignment written as a plain assignment")
+            if isinstance(st, ast.Delete) and len(st.targets) == 1 and isinstance(st.targets[0], ast.Subscript) and isinstance(st.targets[0].value, ast.Name) \
+                    and isinstance(st.targets[0].slice, ast.Constant) and isinstance(st.targets[0].slice.value, int) and not isinstance(st.targets[0].slice.value, bool):
+                t = st.targets[0]
+                stmts[i] = ast.copy_location(ast.Expr(value=ast.copy_location(ast.Call(func=ast.Attribute(value=ast.Name(id=t.value.id, ctx=ast.Load()), attr="pop", ctx=ast.Load()),
+                                                                                         args=[t.slice], keywords=[]), st)), st)
+                notes.append("del xs[k] written as xs.pop(k)")
+            elif isinstance(st, ast.If) and st.orelse and not (len(st.orelse) == 1 and isinstance(st.orelse[0], ast.If)) and not (len(st.body) == 1 and isinstance(st.body[0], ast.If)):
+                t = st.test
+                pos = None
+                if isinstance(t, ast.UnaryOp) and isinstance(t.op, ast.Not):
+                    pos = t.operand
+                elif isinstance(t, ast.Compare) and len(t.ops) == 1 and isinstance(t.ops[0], ast.NotIn):
+                    pos = ast.copy_location(ast.Compare(left=t.left, ops=[ast.In()], comparators=t.comparators), t)
+                if pos is not None:
+                    st.test, st.body, st.orelse = pos, st.orelse, st.body
+                    notes.append("if not c: A else: B written as if c: B else: A")
+            elif not nested and _counter_init(st) is not None and i + 1 < len(stmts) and isinstance(stmts[i + 1], (ast.For, ast.While)) and not stmts[i + 1].orelse \
+                    and _counter_loop(st, stmts[i + 1], params, stores, loads) is not None:
+                # k = c0; for T in IT: k += 1; ..   is   for k, T in enumerate(IT, c0 + 1): ..      (k read only inside the loop)
+                # k = 0; while k < N: ..; k += 1    is   for k in range(N): ..                     (no continue; N not rebound inside)
+                stmts[i:i + 2] = [_counter_loop(st, stmts[i + 1], params, stores, loads)]
+                notes.append("hand-kept loop counter written as enumerate / range")
+                continue
+            elif not nested and isinstance(st, ast.For) and isinstance(st.target, ast.Name) and st.target.id not in params and len(stores.get(st.target.id, [])) == 1 and len(st.body) >= 3:
+                # for t in xs: a = t[0]; b = t[1]; ..  (t read nowhere else)  is  for a, b in xs: ..
+                t = st.target.id
+                names = []
+                for k, b in enumerate(st.body):
+                    if isinstance(b, ast.Assign) and len(b.targets) == 1 and isinstance(b.targets[0], ast.Name) and b.targets[0].id != t and b.targets[0].id not in names \
+                            and isinstance(b.value, ast.Subscript) and isinstance(b.value.value, ast.Name) and b.value.value.id == t and isinstance(b.value.slice, ast.Constant) \
+                            and b.value.slice.value == k and not isinstance(b.value.slice.value, bool):
+                        names.append(b.targets[0].id)
+                    else:
+                        break
+                if len(names) >= 2 and len(names) < len(st.body) and len(loads.get(t, [])) == len(names):
+                    st.target = ast.copy_location(ast.Tuple(elts=[ast.Name(id=x, ctx=ast.Store()) for x in names], ctx=ast.Store()), st.target)
+                    del st.body[:len(names)]
+                    notes.append("loop variable read only through t[0], t[1], .. at the head of the body written as a tuple target")
+            elif not nested and isinstance(st, ast.Assign) and len(st.targets) == 1 and isinstance(st.targets[0], ast.Name) and i + 2 < len(stmts) and st.targets[0].id not in params \
+                    and len(stores.get(st.targets[0].id, [])) == 1 and _index_reads(stmts, i + 1, st.targets[0].id, len(loads.get(st.targets[0].id, []))):
+                # p = E; a = p[0]; b = p[1]  (p read nowhere else)  is  a, b = E
+                names = _index_reads(stmts, i + 1, st.targets[0].id, len(loads.get(st.targets[0].id, [])))
+                st.targets = [ast.copy_location(ast.Tuple(elts=[ast.Name(id=x, ctx=ast.Store()) for x in names], ctx=ast.Store()), st.targets[0])]
+                del stmts[i + 1:i + 1 + len(names)]
+                notes.append("local read only through p[0], p[1], .. right after its binding written as a tuple assignment")
+            elif not nested and isinstance(st, ast.Assign) and len(st.targets) == 1 and isinstance(st.targets[0], ast.Name) and isinstance(st.value, ast.Call) and i + 1 < len(stmts):
+                x = st.targets[0].id
+                nx = stmts[i + 1]
+                if x not in params and len(stores.get(x, [])) == 1 and len(loads.get(x, [])) == 1 and isinstance(nx, ast.Assign) and nx.value is loads[x][0] and len(nx.targets) == 1 \
+                        and isinstance(nx.targets[0], (ast.Tuple, ast.List)):
+                    nx.value = st.value
+                    del stmts[i]
+                    notes.append("tuple bound to a single-use local before it is unpacked")
+                    continue
+            i += 1
+    # list of text pieces joined once
+    if not nested:
+        for L, sts in list(stores.items()):
+            if L in params or len(sts) != 1:
+                continue
+            init = join = None
+            apps = []
+            ok = True
+            parents = {}
+            for p_ in ast.walk(fn):
+                for ch in ast.iter_child_nodes(p_):
+                    parents[id(ch)] = p_
+            ip = parents.get(id(sts[0]))
+            if not (isinstance(ip, ast.Assign) and len(ip.targets) == 1 and ip.targets[0] is sts[0] and isinstance(ip.value, ast.List) and not ip.value.elts):
+                continue
+            for ld in loads.get(L, []):
+                p1 = parents.get(id(ld))
+                p2 = parents.get(id(p1))
+                p3 = parents.get(id(p2))
+                if isinstance(p1, ast.Attribute) and p1.attr == "append" and isinstance(p2, ast.Call) and p2.func is p1 and len(p2.args) == 1 and not p2.keywords and isinstance(p3, ast.Expr):
+                    apps.append((p3, p2.args[0]))
+                elif isinstance(p1, ast.Call) and isinstance(p1.func, ast.Attribute) and p1.func.attr == "join" and isinstance(p1.func.value, ast.Constant) and p1.func.value.value == "" \
+                        and p1.args == [ld] and join is None and isinstance(p2, (ast.Assign, ast.Return)) and p2.value is p1:
+                    join = (p2, p1)
+                else:
+                    ok = False
+            if not ok or join is None or not apps:
+                continue
+            # the join must come after every append: it is a statement of the function body's top level placed after the statements holding the appends
+            top = fn.body
+            if join[0] not in top or ip not in top:
+                continue
+            ji = top.index(join[0])
+            def top_index(node):
+                cur = node
+                while cur is not None and cur not in top:
+                    cur = parents.get(id(cur))
+                return top.index(cur) if cur is not None else None
+            if not all((top_index(a_) is not None and top.index(ip) < top_index(a_) < ji) for a_, _e in apps):
+                continue
+            # `T = "".join(L)` with T bound nowhere else and read only afterwards: the accumulator is T itself
+            jt = join[0].targets[0] if isinstance(join[0], ast.Assign) and len(join[0].targets) == 1 and isinstance(join[0].targets[0], ast.Name) else None
+            if jt is not None and jt.id not in params and len(stores.get(jt.id, [])) == 1 and all((top_index(l_) or -1) > ji for l_ in loads.get(jt.id, [])):
+                ip.targets[0].id = jt.id
+                top.remove(join[0])
+                L = jt.id
+            else:
+                join[0].value = ast.copy_location(ast.Name(id=L, ctx=ast.Load()), join[1])
+            ip.value = ast.copy_location(ast.Constant(value=""), ip.value)
+            for blk in _blocks(fn):
+                for k, st in enumerate(blk):
+                    for a_, e_ in apps:
+                        if st is a_:
+                            blk[k] = ast.copy_location(ast.AugAssign(target=ast.Name(id=L, ctx=ast.Store()), op=ast.Add(), value=e_), st)
+            notes.append("text pieces collected in a list and joined once written as a string accumulator")
+    return notes
+
+
 def lower_program(prog: Program) -> None:
     counter = [0]
     log = []
     for f in list(prog.all_functions(include_inlined=True)):
+        if _lower_enumerate_index(f.node):
+            log.append(f"{f.qualname}: sequence indexed by the enumerate counter (equal lengths asserted before the loop) zipped into the loop")
+    for f in list(prog.all_functions(include_inlined=True)):
+        for note in sorted(set(_lower_statements(f.node))):
+            ast.fix_missing_locations(f.node)
+            log.append(f"{f.qualname}: {note}")
+    for f in list(prog.all_functions(include_inlined=True)):
         if _lower_selfassign(f.node):
             log.append(f"{f.qualname}: `x = x <op> e` on a numeric accumulator written as an augmented assignment")
     for f in list(prog.all_functions(include_inlined=True)):
-        c = _ExprCanon()
+        c = _ExprCanon(getattr(f.module, "imports", None))
+        c.bound = {n.id for n in ast.walk(f.node) if isinstance(n, ast.Name) and isinstance(n.ctx, ast.Store)} | {a.arg for a in ast.walk(f.node) if isinstance(a, ast.arg)}
+        if any(isinstance(n, ast.Name) and isinstance(n.ctx, ast.Store) and n.id in c.imports for n in ast.walk(f.node)) or any(a.arg in c.imports for a in ast.walk(f.node) if isinstance(a, ast.arg)):
+            c.imports = {k: v for k, v in c.imports.items() if k not in c.bound}
         for i, st in enumerate(f.node.body):
             f.node.body[i] = c.visit(st)
         if c.changed:
